@@ -35,7 +35,8 @@ fn any_scale() -> Float {
 }
 
 fn actor_with_profile(profile: Profile) -> Arc<Actor> {
-    let vehicle = Arc::new(Vehicle { profile, costs: costs(0., 0., 0.), dimens: Dimensions::default(), details: vec![] });
+    let vehicle =
+        Arc::new(Vehicle { profile, costs: costs(0., 0., 0.), dimens: Dimensions::default(), details: vec![] });
     actor_with(vehicle, 0, 0., Some(0), 1000.)
 }
 
@@ -179,7 +180,10 @@ fn c16_reject_gap_profile() {
 #[kani::stub(TimeAwareMatrixTransportCost::new, time_aware_must_not_be_built)]
 fn c16_reject_timestamp_in_agnostic() {
     let t: Float = any_u8f();
-    assert!(TimeAgnosticMatrixTransportCost::new(vec![matrix(0, None, 4, 4), matrix(1, Some(t), 4, 4)], 2, NoFallback).is_err());
+    assert!(
+        TimeAgnosticMatrixTransportCost::new(vec![matrix(0, None, 4, 4), matrix(1, Some(t), 4, 4)], 2, NoFallback)
+            .is_err()
+    );
     kani::cover!(true, "reached");
 }
 
